@@ -76,3 +76,12 @@ pub fn arg(name: &str) -> Option<String> {
     let a: Vec<String> = std::env::args().collect();
     a.iter().position(|x| x == name).and_then(|i| a.get(i + 1).cloned())
 }
+
+/// Async variant of `guarded`: a panic while polling the future is data.
+pub async fn guarded_async<F: std::future::Future>(f: F) -> Result<F::Output, String> {
+    use futures::FutureExt;
+    match AssertUnwindSafe(f).catch_unwind().await {
+        Ok(v) => Ok(v),
+        Err(e) => Err(if let Some(s) = e.downcast_ref::<&str>() { s.to_string() } else if let Some(s) = e.downcast_ref::<String>() { s.clone() } else { "panic".to_string() }),
+    }
+}
